@@ -74,6 +74,28 @@ type fakeHost struct {
 	mu        sync.Mutex
 	handlers  map[protocol.ID]network.StreamHandler
 	out       []*fakeStream // every stream this host opened
+	// scripted fault: Close() of a stream opened to one of these peers returns an error (the remote side has reset it)
+	failCloseTo map[peer.ID]bool
+}
+
+func (h *fakeHost) setFailClose(m map[peer.ID]bool) {
+	h.mu.Lock()
+	h.failCloseTo = m
+	h.mu.Unlock()
+}
+
+// misuse counts what must never happen to a stream: a Close after the first one, a Write after it was closed.
+func (h *fakeHost) misuse() int {
+	h.mu.Lock()
+	defer h.mu.Unlock()
+	n := 0
+	for _, s := range h.out {
+		if c := int(atomic.LoadInt32(&s.closeCalls)); c > 1 {
+			n += c - 1
+		}
+		n += int(atomic.LoadInt32(&s.deadWrites))
+	}
+	return n
 }
 
 // addHost registers a host that knows `all` peers (itself included, like the repository's test set-up).
@@ -109,7 +131,9 @@ func (h *fakeHost) NewStream(ctx context.Context, p peer.ID, pids ...protocol.ID
 	h.net.mu.Lock()
 	dst := h.net.hosts[p]
 	h.net.mu.Unlock()
-	s := &fakeStream{remote: p}
+	h.mu.Lock()
+	s := &fakeStream{remote: p, failClose: h.failCloseTo[p]}
+	h.mu.Unlock()
 	if dst != nil {
 		dst.mu.Lock()
 		f := dst.handlers[pids[0]]
@@ -146,6 +170,9 @@ type fakeStream struct {
 	r              *io.PipeReader
 	w              *io.PipeWriter
 	closed         int32
+	failClose      bool
+	closeCalls     int32
+	deadWrites     int32
 }
 
 func (s *fakeStream) Read(p []byte) (int, error) {
@@ -156,6 +183,7 @@ func (s *fakeStream) Read(p []byte) (int, error) {
 }
 func (s *fakeStream) Write(p []byte) (int, error) {
 	if atomic.LoadInt32(&s.closed) != 0 {
+		atomic.AddInt32(&s.deadWrites, 1)
 		return 0, errors.New("stream closed")
 	}
 	if s.w == nil {
@@ -164,12 +192,16 @@ func (s *fakeStream) Write(p []byte) (int, error) {
 	return s.w.Write(p)
 }
 func (s *fakeStream) Close() error {
+	atomic.AddInt32(&s.closeCalls, 1)
 	atomic.StoreInt32(&s.closed, 1)
 	if s.w != nil {
 		s.w.Close()
 	}
 	if s.r != nil {
 		s.r.Close()
+	}
+	if s.failClose {
+		return errors.New("stream reset")
 	}
 	return nil
 }
